@@ -8,6 +8,24 @@ def hooks_commits():
     return [l.split()[0] for l in out.splitlines() if l.split(" ", 1)[1].startswith("verif hook")][::-1]
 
 CHECKS = {
+ "C02": dict(level="exploration", technique="deterministic simulation: seeded schedule search over 1..16 simulated threads; returned bound vs independently evaluated true regret",
+   text="Every run solves a generated game with the unsampled method and vanilla parameters for one (T, threshold, K) inside one simulated execution (seeded scheduler, rayon stand-in) and compares the returned bound with the true regret of the returned profile computed by an independent best-response evaluator (own tree type; cross-checked against brute force over pure strategies on small games). The oracle is tight: observed regret/bound reaches 0.98, so a rescaling of the bound by <= 0.95, a dropped factor 2, or any lost / duplicated subtree under K > 1 is refuted within a quick batch.",
+   note="Trusted: the independent evaluator (self-checked per run where affordable), the rayon stand-in, 1e-9*D tolerance.", ref="6 C02"),
+ "C03": dict(level="exploration", technique="deterministic simulation: seeded schedule search over simulated thread counts; CFR-rate envelopes evaluated by an independent evaluator",
+   text="Per run: one generated game (adversarial shape classes included) x preset x budget 2^0..2^12 x K (1..16 simulated threads up to T = 256) in one simulated execution; per-player bounds (vanilla) and the independently evaluated true regret (all presets) must lie inside the envelopes stated by the property. The game x budget sweep is plain seeded generation; the simulator contributes the thread-count / schedule dimension. A correct tree sits 3-25x inside the envelopes, so this check refutes gross convergence failures, not constant-factor errors (those are C02 / C08).",
+   note="Trusted: evaluator, stand-in; envelopes taken from the property as given.", ref="6 C03"),
+ "C04": dict(level="exploration", technique="deterministic simulation: seeded, replayable sampling histories (keyed RNG seam) x simulated threads; envelope per game + population statistics",
+   text="Per run: one generated game x (Sampled|External, preset) x one seeded sampling history, solved at T = 100, 400, 1600, 3200 (K simulated threads up to 400 iterations). Oracle A: true regret (independent evaluator) <= D*N*sqrt(A)/sqrt(T) at every checkpoint. Oracle B, per (method, preset) over the >= 150 games of the batch: median regret/D at 3200 < 1% and mean at 3200 < half the mean at 100. The claim is probabilistic; draws are pinned per VERIF_SEED and the observed maximum regret/envelope ratio is reported in evidence on every run.",
+   note="Trusted: evaluator; a different VERIF_SEED is a different sample (margin measured: max regret/envelope 0.12-0.2).", ref="6 C04"),
+ "C08": dict(level="exploration", technique="deterministic simulation: refinement against an executable reference model under pinned sampling histories (keyed RNG seam), 1..3 simulated threads",
+   text="Per run the library solves (method x parameter tuple incl. 0 and +-inf x T 0..50 x K 1..3) with its draws pinned and logged; an independent reference implementation of the documented algorithm (simultaneous-update DCFR, chance sampling, alternating external sampling; documented discount / averaging / regret-matching semantics; presets as documented tuples; None = documented default) computes the same iterates from the same keys. The complete draw log (site, pass, weights presented, index) and the returned strategies must agree (1e-7) on well-conditioned runs.",
+   note="Trusted: the reference model (independent in code, not authorship); undocumented tie-breaking is learned from the build; near ties / near-zero regrets are skipped (counted in evidence).", ref="6 C08"),
+ "C09": dict(level="exploration", technique="deterministic simulation: prefix-history refinement under pinned sampling histories; thresholds placed around every bound of the history; K = 1 bit-exact, K > 1 under seeded schedules",
+   text="Per run, inside one simulated execution: prefix solves with budgets 0..N give the bound history; solves with thresholds -1, 0, NaN, +inf and thresholds just below / at / just above bounds of the history must return exactly (bit for bit at one thread) the prefix run with budget t* = first iteration whose total bound is < r. Catches <= vs <, off-by-one stops, testing one player only, NaN / negative thresholds shortening a run, exceeding the budget.",
+   note="Trusted: keyed RNG makes a budget-t run a prefix of a budget-N run; K > 1 comparisons use C06 tolerances.", ref="6 C09"),
+ "C10": dict(level="exploration", technique="deterministic simulation: observed sampling sites under a keyed / scripted RNG seam (input channel), reference draw log, Hoeffding-band frequencies",
+   text="Observer runs: every sampling site of a solve is observed (hooks H3/H4): Full draws nothing, Sampled draws no player actions, one draw per (site, pass), chance weights presented = declared weights normalised, each player draw = inverse CDF of the presented weights at the keyed variate, whole draw log = documented algorithm's. Scripted runs: the private categorical sampler (H7) on a scripted RngCore over weight vectors of length 1..8 and variates incl. every cumulative boundary +-2 ulp. Frequency runs: 1e5 keyed draws through the real chance / opponent sampling code, Hoeffding band with failure probability 1e-12.",
+   note="Trusted: SplitMix64 as uniform source; boundary cases within a few ulp accept either neighbour.", ref="6 C10"),
  "C05": dict(level="exploration", technique="deterministic simulation with fault injection: seeded search over configurations x schedules with injected pool-build failures, core-count faults, oversubscription and starved workers; deadlock / step-budget / panic detection",
    text="Every run executes one seeded point of the full configuration product (methods, RegretParams::new tuples incl. +-inf and +-1e3, presets, None, T incl. 0, thresholds incl. negative/NaN/inf, num_threads incl. 0 and the overflow boundary) inside one simulated execution. Injected faults: thread-pool construction failure, too many threads, unknown / overridden core count, starved worker (PCT schedule), fewer tasks than workers, stub coins. Oracle: no panic in any task, no deadlock, step budget respected, Ok / ThreadOverflow / ThreadSpawnError exactly where expected (1 thread never errors), well-formed profile and bounds on Ok, and after an injected failure the retried call succeeds and equals a fault-free run. Contract-edge trees (own action forgotten; one action here, several there) are fed to from_root as well. Fault kinds are enumerated; schedules and inputs are sampled.",
    note="Trusted: stand-in fails pool builds above 4096 threads as the real pool does in this sandbox; allocation failure not modelled; hang = step budget on decision-node visits + shuttle deadlock detector.", ref="6 C05"),
